@@ -738,6 +738,16 @@ func c18Child(a *ChildArgs) {
 			}
 			f := faults[i%len(faults)]
 			s.add(c18Step{Kind: "header-fault", Label: f.name, Bytes: []byte(f.raw)})
+			// a message whose header cannot be used but whose extent is evident (complete header block, short body in
+			// place) must not cost the rest of the session: the requests after it are answered like any other
+			switch f.name {
+			case "negative-length", "huge-length", "over-limit-length", "non-numeric-length", "missing-length", "two-length-headers", "length-with-spaces", "plus-sign-length", "long-header-line":
+				for k := 0; k < 2+r.Intn(2); k++ {
+					st := c18Request(r, &idn, s.docs)
+					st.Label += "@after-" + f.name
+					s.add(st)
+				}
+			}
 			c18CheckSession(a, s, "headers", true)
 		}
 	}
